@@ -182,7 +182,8 @@ def run_harness(ctx, cases, tag="run", binary=None, deadline=None, workers=None)
         deadline = 1500 if ctx.quick else 3000
     cmd = [binary, "run", "-cases", cf, "-out", tf, "-workers", str(workers or NCPU), "-deadline", str(deadline)]
     t = time.time()
-    p = subprocess.run(cmd, stdout=subprocess.PIPE, stderr=subprocess.STDOUT, text=True)
+    env = dict(os.environ, GORACE="halt_on_error=1 exitcode=66")
+    p = subprocess.run(cmd, stdout=subprocess.PIPE, stderr=subprocess.STDOUT, text=True, env=env)
     if p.returncode != 0:
         raise Infra("harness run failed (%d):\n%s" % (p.returncode, p.stdout[-3000:]))
     m = re.search(r"SUPER cases=(\d+) hang=(\d+) fatal=(\d+) skipped=(\d+)", p.stdout)
@@ -272,3 +273,30 @@ def case_key(c):
     """Canonical identity of an abstract case (for distinct counts)."""
     k = {x: c.get(x) for x in ("kind", "fmt", "tgt", "entry", "doc", "cuts", "plan", "eofwith", "buf", "opts", "stream", "fault", "sub")}
     return hashlib.sha1(json.dumps(k, sort_keys=True).encode()).hexdigest()
+
+
+def tlc_expect_violation(ctx, module, constants, invariant, name, workers=4):
+    """Negative control on a model: TLC must report a violation of invariant."""
+    wd = ctx.sub("neg-" + name)
+    for f in os.listdir(SPEC):
+        if f.endswith(".tla"):
+            shutil.copyfile(os.path.join(SPEC, f), os.path.join(wd, f))
+    with open(os.path.join(wd, module + ".cfg"), "w") as f:
+        f.write(cfg(constants, [invariant]))
+    cmd = _tlc_cmd("4g") + ["-workers", str(workers), "-metadir", os.path.join(wd, "md"), "-noGenerateSpecTE", module + ".tla"]
+    p = subprocess.run(cmd, cwd=wd, stdout=subprocess.PIPE, stderr=subprocess.STDOUT, text=True, timeout=1800)
+    shutil.rmtree(wd, ignore_errors=True)
+    if ("Invariant %s is violated" % invariant) not in p.stdout:
+        raise Infra("negative control %s: TLC did not report a violation of %s" % (name, invariant))
+    ctx.model_checks.append("negative control %s: TLC finds a violation of %s!%s as it must" % (name, module, invariant))
+
+
+def tlc_model_check(ctx, module, constants, invariants, name, workers=8):
+    wd = ctx.sub("mc-" + name)
+    out, gen, dist = run_tlc(ctx, module, cfg(constants, list(invariants)), wd, workers=workers)
+    shutil.rmtree(wd, ignore_errors=True)
+    ctx.gen_stats.append(dict(spec=module, name=name, constants={k: (sorted(v) if isinstance(v, (set, frozenset)) else v) for k, v in constants.items()},
+                              states=dist, transitions=gen, reported=0))
+    for inv in invariants:
+        ctx.model_checks.append("%s!%s held on %d states (%s)" % (module, inv, dist, name))
+    log("M %s: %d states, invariants %s hold" % (name, dist, ",".join(invariants)))
